@@ -11,10 +11,12 @@ Reading guide
 * §2 what the spec means: `specOutcome` is "context = deepest resource reached, view name = first segment
   that could not be looked up, subpath = the rest, traversed = the consumed segments, virtual root = the resource
   at the virtual-root path" — each clause proved from the definition of `Walkable`, not from the loop.
-* §3 the traverser against the spec: equal without a virtual root (`traverser_no_vroot`); with one, equal in
-  context / view name / subpath / virtual root whenever the two paths normalise independently, and equal in
-  `traversed` exactly when the walk exhausts the path or the virtual root is `/` (`…_partial`); the three
-  recorded defects are proved to be real at concrete points (`by decide`).
+* §3 the traverser against the spec: equal without a virtual root (`traverser_no_vroot`); with one — for every
+  header text and request path, since 939e5de normalises them separately — equal in context / view name / subpath /
+  virtual root / virtual_root_path (`vroot_context_viewname_subpath`, `vroot_is_resource_at_vroot_path`,
+  `traverser_agrees_with_spec`: FULL), and in `traversed` if and only if the walk exhausts the path or the virtual
+  root is `/` (`traversed_vroot_partial`: the exact value the code returns otherwise — F-C02a, proved real at a
+  concrete point by `decide`).  The former F-C02b / F-C02c witnesses are `decide`d regression facts.
 -/
 namespace Pyr.Trav
 
@@ -145,9 +147,10 @@ theorem split_idempotent (p : Text) : splitPathInfo ('/' :: joinWith '/' (splitP
     obtain ⟨h1, h2, h3, h4⟩ := split_clean p s hs
     exact ⟨⟨h1, h2, h3⟩, h4⟩)).1
 
-/-- Sufficient condition for "prepending the virtual root's path" to mean what it says: when the request path
-starts with a slash and its `..` segments never climb out of it, the combined string normalises to the virtual
-root's segments followed by the request's segments. -/
+/-- What 939e5de did NOT change: when the request path starts with a slash and its `..` segments never climb out
+of it, normalising the concatenated string (the code before the fix) and concatenating the separately normalised
+tuples (the code now) give the same segments — the fix is observable only where `..` reaches into the header or
+the leading slash is missing. -/
 theorem split_vroot_append (v p : Text) (hclimb : noClimbFrom 0 (splitOn '/' p) = true) :
     splitPathInfo (v ++ '/' :: p) = splitPathInfo v ++ splitPathInfo ('/' :: p) := by
   rw [splitPathInfo_eq, splitPathInfo_eq, splitPathInfo_eq, splitOn_append_sep, splitOn_cons_sep]
@@ -250,7 +253,7 @@ theorem spec_virtual_root (root : Tree) (vt pt sub0 : List Seg) :
 traversed, virtual root (= root) — for every tree, path and match dictionary.  FULL. -/
 theorem traverseText_no_vroot (root : Tree) (path : Text) (sub0 : List Seg) :
     traverseText root none path sub0 = specText root none path sub0 := by
-  simp only [traverseText, specText, vpath_shortcut, walk_outcome, specOutcome, List.nil_append]
+  simp only [traverseText_none, specText, walk_outcome, specOutcome, List.nil_append]
   have hk := deepest_le root (splitPathInfo path)
   cases h : (splitPathInfo path).drop (deepest root (splitPathInfo path)) with
   | nil =>
@@ -268,31 +271,26 @@ theorem traverser_no_vroot (root : Tree) (rq : Req) (h : rq.vroot = none) :
   | error e => rfl
   | ok ps => simp [traverseText_no_vroot]
 
-/-- With a virtual-root header, provided the combined string normalises to "virtual-root segments, then request
-segments" (`split_vroot_append` gives a sufficient condition), the traverser's result is the spec's in every
-field but `traversed`, and `traversed` is the spec's consumed prefix *plus* `len(virtual_root_path)` further
-segments when the walk stops early.  PARTIAL: the full statement (`traversed` = the consumed segments) fails for
-an early stop under a non-empty virtual root (F-C02a, `traversed_vroot_counterexample`), and the hypothesis
-fails when `..` climbs into the virtual root (F-C02b) or the two strings are glued (F-C02c). -/
-theorem traverseText_vroot_partial (root : Tree) (v path : Text) (sub0 : List Seg)
-    (hsplit : splitPathInfo (v ++ path) = splitPathInfo v ++ splitPathInfo path) :
+/-- Closed form of the traverser under a virtual-root header, for EVERY header text and request path (no
+hypothesis on how the two strings relate — since 939e5de they are normalised separately): the spec's result
+in every field but `traversed`, and `traversed` is the spec's when the walk exhausts the path, otherwise the first
+`len(virtual_root_path) + consumed` segments of the combined tuple (`vpath_tuple[: vroot_idx + i + 1]`). -/
+theorem traverseText_vroot (root : Tree) (v path : Text) (sub0 : List Seg) :
     let e := specText root (some v) path sub0
     let segs := splitPathInfo v ++ splitPathInfo path
     traverseText root (some v) path sub0 =
       { e with traversed :=
           if deepest root segs = segs.length then e.traversed
           else segs.take ((splitPathInfo v).length + deepest root segs) } := by
-  simp only [traverseText, vpath_shortcut]
-  simp only [specText, walk_outcome, specOutcome, hsplit]
-  generalize hvt : splitPathInfo v = vt
-  generalize hpt : splitPathInfo path = pt
+  simp only [traverseText_some]
+  simp only [specText, walk_outcome, specOutcome]
+  generalize splitPathInfo v = vt
+  generalize splitPathInfo path = pt
   have hk := deepest_le root (vt ++ pt)
-  have key : vt.length ≤ deepest root (vt ++ pt) → (vt ++ pt).take vt.length = vt := by intro _; simp
   cases h : (vt ++ pt).drop (deepest root (vt ++ pt)) with
   | nil =>
     have h1 : (vt ++ pt).length ≤ deepest root (vt ++ pt) := by simpa using h
     have h2 : deepest root (vt ++ pt) = (vt ++ pt).length := by omega
-    have h3 : vt.length ≤ deepest root (vt ++ pt) := by simp at h1; omega
     simp only [h2, if_true, List.take_of_length_le (Nat.le_refl _)]
     by_cases hv : 0 < vt.length
     · have : 0 < vt.length ∧ vt.length ≤ (vt ++ pt).length := ⟨hv, by simp⟩
@@ -315,14 +313,101 @@ theorem traverseText_vroot_partial (root : Tree) (v path : Text) (sub0 : List Se
     · have : ¬ (0 < vt.length ∧ vt.length ≤ deepest root (vt ++ pt)) := fun hh => hv hh.2
       simp [hv]
 
-/-- Consequently `traversed` is exactly the consumed segments whenever the walk exhausts the path or the
-virtual root is the root itself (`/`, empty header). -/
+/-- With a virtual-root header — ANY header text, ANY request path (with `..`, without a leading slash, …) —
+context, view name, subpath, virtual root and `virtual_root_path` are exactly the spec's: the header's segments
+are prepended to the request's own normalised segments and the result is walked.  FULL (was `_partial` under the
+hypothesis `split(v ++ path) = split v ++ split path` until F-C02b/c were repaired in 939e5de). -/
+theorem vroot_context_viewname_subpath (root : Tree) (v path : Text) (sub0 : List Seg) :
+    let r := traverseText root (some v) path sub0
+    let e := specText root (some v) path sub0
+    r.context = e.context ∧ r.viewName = e.viewName ∧ r.subpath = e.subpath ∧
+      r.virtualRoot = e.virtualRoot ∧ r.virtualRootPath = e.virtualRootPath := by
+  simp only [traverseText_vroot, and_self]
+
+/-- "The virtual root is the resource found at that path", and the request path is resolved beneath it: for every
+header `v` and path, `virtual_root_path` is the normalised header; if that position can be walked, the virtual
+root IS the resource at it (it exists in the tree) and the context lies at or below it, reached through a prefix
+of the request's OWN normalised segments (no `..` of the request path leads out of the virtual root, nothing is
+glued to the header's last segment); if it cannot be walked the virtual root is the root and the walk stopped
+inside the header's segments.  FULL (was `_partial` until 939e5de). -/
+theorem vroot_is_resource_at_vroot_path (root : Tree) (v path : Text) (sub0 : List Seg) :
+    let r := traverseText root (some v) path sub0
+    let vt := splitPathInfo v
+    r.virtualRootPath = vt ∧
+      (Walkable root vt = true →
+        r.virtualRoot = vt ∧ (root.resolve r.virtualRoot).isSome = true ∧
+          ∃ q, q <+: splitPathInfo path ∧ r.context = vt ++ q) ∧
+      (Walkable root vt = false →
+        r.virtualRoot = [] ∧ r.context <+: vt ∧ r.context.length < vt.length) := by
+  obtain ⟨hc, _, _, hvr, hvp⟩ := vroot_context_viewname_subpath root v path sub0
+  dsimp only
+  rw [hc, hvr, hvp]
+  simp only [specText]
+  generalize splitPathInfo v = vt
+  generalize splitPathInfo path = pt
+  obtain ⟨s1, s2, s3⟩ := spec_virtual_root root vt pt sub0
+  have hctx := (specOutcome_context root vt pt sub0).1
+  have hk := deepest_le root (vt ++ pt)
+  refine ⟨s1, fun hw => ?_, fun hw => ?_⟩
+  · have hge := (prefix_le_deepest_iff root vt pt).mpr hw
+    refine ⟨s2 hw, by rw [s2 hw]; exact resolve_of_walkable root vt hw,
+      pt.take (deepest root (vt ++ pt) - vt.length), List.take_prefix _ _, ?_⟩
+    rw [hctx, List.take_append, List.take_of_length_le hge]
+  · have hlt : ¬ vt.length ≤ deepest root (vt ++ pt) := fun hh => by
+      rw [(prefix_le_deepest_iff root vt pt).mp hh] at hw; cases hw
+    have e : (vt ++ pt).take (deepest root (vt ++ pt)) = vt.take (deepest root (vt ++ pt)) := by
+      rw [List.take_append]
+      have : deepest root (vt ++ pt) - vt.length = 0 := by omega
+      simp [this]
+    refine ⟨s3 hw, ?_, ?_⟩
+    · rw [hctx, e]; exact List.take_prefix _ _
+    · rw [hctx, e, List.length_take]; omega
+
+/-- `traversed` under a virtual-root header, exactly as the code computes it.  PARTIAL with respect to the
+property ("'traversed' is exactly the segments consumed"): it IS the consumed segments if and only if the virtual
+root is empty (`/`, empty header) or the walk exhausts the path; in every other case it is the consumed segments
+followed by the next `len(virtual_root_path)` segments of the path (view name / subpath segments) — F-C02a, pinned
+by `test_withroute_and_traverse_and_vroot`, real at `traversed_vroot_counterexample`.  The characterisation
+itself holds for every tree, header and path. -/
+theorem traversed_vroot_partial (root : Tree) (v path : Text) (sub0 : List Seg) :
+    let r := traverseText root (some v) path sub0
+    let e := specText root (some v) path sub0
+    let vt := splitPathInfo v
+    let segs := vt ++ splitPathInfo path
+    let k := deepest root segs
+    e.traversed = segs.take k ∧ e.traversed = e.context ∧
+      (r.traversed = e.traversed ↔ vt = [] ∨ k = segs.length) ∧
+      (k ≠ segs.length → r.traversed = e.traversed ++ (segs.drop k).take vt.length) := by
+  simp only [traverseText_vroot]
+  simp only [specText]
+  generalize splitPathInfo v = vt
+  generalize splitPathInfo path = pt
+  obtain ⟨hc, ht⟩ := specOutcome_context root vt pt sub0
+  have hk := deepest_le root (vt ++ pt)
+  rw [ht, hc]
+  refine ⟨rfl, rfl, ?_, ?_⟩
+  · constructor
+    · intro h
+      by_cases hx : deepest root (vt ++ pt) = (vt ++ pt).length
+      · exact .inr hx
+      · simp only [hx, if_false] at h
+        have := congrArg List.length h
+        simp only [List.length_take] at this
+        exact .inl (List.length_eq_zero_iff.mp (by omega))
+    · rintro (h | h)
+      · subst h; simp
+      · simp [h]
+  · intro hx
+    simp only [hx, if_false]
+    rw [Nat.add_comm, List.take_add]
+
+/-- Consequently the traverser equals the spec in EVERY field whenever the walk exhausts the path or the virtual
+root is the root itself (`/`, empty header) — for every header text and request path. -/
 theorem traversed_vroot_exact_when_exhausted_or_root (root : Tree) (v path : Text) (sub0 : List Seg)
-    (hsplit : splitPathInfo (v ++ path) = splitPathInfo v ++ splitPathInfo path)
     (h : deepest root (splitPathInfo v ++ splitPathInfo path) = (splitPathInfo v ++ splitPathInfo path).length ∨
          splitPathInfo v = []) :
     traverseText root (some v) path sub0 = specText root (some v) path sub0 := by
-  rw [traverseText_vroot_partial root v path sub0 hsplit]
+  rw [traverseText_vroot root v path sub0]
   rcases h with h | h
   · simp [h]
   · simp only [h, List.length_nil, Nat.zero_add, List.nil_append]
@@ -335,6 +420,32 @@ theorem traversed_vroot_exact_when_exhausted_or_root (root : Tree) (v path : Tex
         simp [List.take_of_length_le this]
       · rfl
 
+/-- The whole traverser against the whole spec, for EVERY request (PATH_INFO or match dictionary, with or without
+a virtual-root header, decodable or not): the same error, or the same context, view name, subpath, virtual root
+and `virtual_root_path`; and the same `traversed` when there is no header.  FULL. -/
+theorem traverser_agrees_with_spec (root : Tree) (rq : Req) :
+    match traverser root rq, specTraverser root rq with
+    | .ok r, .ok e =>
+      r.context = e.context ∧ r.viewName = e.viewName ∧ r.subpath = e.subpath ∧
+        r.virtualRoot = e.virtualRoot ∧ r.virtualRootPath = e.virtualRootPath ∧
+        (rq.vroot = none → r.traversed = e.traversed)
+    | .error a, .error b => a = b
+    | _, _ => False := by
+  simp only [traverser, specTraverser]
+  cases requestPath rq with
+  | error e => simp
+  | ok ps =>
+    obtain ⟨path, sub0⟩ := ps
+    cases hv : rq.vroot with
+    | none => simp [traverseText_no_vroot]
+    | some raw =>
+      simp only []
+      cases decodePathInfo raw with
+      | none => simp
+      | some v =>
+        obtain ⟨h1, h2, h3, h4, h5⟩ := vroot_context_viewname_subpath root v path sub0
+        simp [h1, h2, h3, h4, h5]
+
 /-- F-C02a is real: virtual root `/abc`, path `/foo/bar`, tree `{abc: {}}` — the walk consumes `abc` and stops
 at `foo`, yet `traversed` is `('abc', 'foo')` (the repository's `test_withroute_and_traverse_and_vroot` pins
 this value). -/
@@ -345,27 +456,34 @@ theorem traversed_vroot_counterexample :
       r.traversed = ["abc".toList, "foo".toList] ∧
       (specText root (some "/abc".toList) "/foo/bar".toList []).traversed = ["abc".toList] := by decide
 
-/-- F-C02b is real: virtual root `/a/b`, path `/../c` — the walk leaves the virtual root; the context and the
-reported virtual root are `/a/c` while `virtual_root_path` says `('a','b')`. -/
-theorem dotdot_escapes_vroot_counterexample :
+/-- Regression fact for the former F-C02b (repaired in 939e5de): virtual root `/a/b`, path `/../c`.  The `..` is
+resolved inside the request path, so the walk stays below `/a/b`: context and virtual root are `/a/b`, the view
+name is `c` (the old code answered context = virtual root = `/a/c`).  With a `c` below `/a/b` the context is
+`/a/b/c` — not the sibling `/a/c` — and the whole result is the spec's. -/
+theorem dotdot_stays_below_vroot_regression :
     let leaf : Tree := .mk true []
     let root : Tree := .mk true [("a".toList, .mk true [("b".toList, leaf), ("c".toList, leaf)])]
+    let root2 : Tree := .mk true [("a".toList, .mk true [("b".toList, .mk true [("c".toList, leaf)]), ("c".toList, leaf)])]
     let r := traverseText root (some "/a/b".toList) "/../c".toList []
-    r.context = ["a".toList, "c".toList] ∧ r.virtualRoot = ["a".toList, "c".toList] ∧
+    let r2 := traverseText root2 (some "/a/b".toList) "/../c".toList []
+    r.context = ["a".toList, "b".toList] ∧ r.viewName = "c".toList ∧ r.virtualRoot = ["a".toList, "b".toList] ∧
       r.virtualRootPath = ["a".toList, "b".toList] ∧
-      (specText root (some "/a/b".toList) "/../c".toList []).virtualRoot = ["a".toList, "b".toList] ∧
-      splitPathInfo ("/a/b".toList ++ "/../c".toList) ≠ splitPathInfo "/a/b".toList ++ splitPathInfo "/../c".toList := by
+      r2 = specText root2 (some "/a/b".toList) "/../c".toList [] ∧
+      r2.context = ["a".toList, "b".toList, "c".toList] ∧ r2.virtualRoot = ["a".toList, "b".toList] ∧
+      r2.traversed = ["a".toList, "b".toList, "c".toList] := by
   decide
 
-/-- F-C02c is real: virtual root `/a`, `traverse = 'x'` from a `{traverse}` placeholder — the strings are glued
-to `/ax`; the walk looks for `ax` and the virtual root stays the root although `/a` exists. -/
-theorem vroot_glued_counterexample :
+/-- Regression fact for the former F-C02c (repaired in 939e5de): virtual root `/a`, `traverse = 'x'` from a
+`{traverse}` placeholder (no leading slash).  The tuples are concatenated, not the strings: the walk goes `a`,
+`x`, the virtual root is `/a`, and the result is the spec's in every field (the old code looked for `ax`). -/
+theorem vroot_not_glued_regression :
     let root : Tree := .mk true [("a".toList, .mk true [("x".toList, .mk true [])])]
     let rq : Req := { pathInfo := none, vroot := none, matchdict := some { traverse := some (.str "x".toList), subpath := none } }
+    let r := traverseText root (some "/a".toList) "x".toList []
     (requestPath rq).toOption = some ("x".toList, []) ∧
-    (traverseText root (some "/a".toList) "x".toList []).viewName = "ax".toList ∧
-      (traverseText root (some "/a".toList) "x".toList []).virtualRoot = [] ∧
-      (specText root (some "/a".toList) "x".toList []).context = ["a".toList, "x".toList] := by decide
+      r = specText root (some "/a".toList) "x".toList [] ∧
+      r.context = ["a".toList, "x".toList] ∧ r.viewName = [] ∧ r.virtualRoot = ["a".toList] ∧
+      r.traversed = ["a".toList, "x".toList] := by decide
 
 /-! ### the two ways a path reaches the traverser, and decoding failures -/
 
@@ -416,19 +534,30 @@ theorem undecodable_path_info (root : Tree) (rq : Req) (raw : Bytes) (h : rq.pat
 
 /-- a three-level tree with a leaf; the hypotheses of the theorems above hold on it and the outcome is the
 expected one (vroot `/a`, path `/b/leaf/x/y`: walk `a`,`b`,`leaf`, stop at `x` because the leaf has no item
-lookup). -/
+lookup): `Walkable root (split v)` holds, the walk does not exhaust the path (`k ≠ segs.length`), the virtual
+root is not empty — the F-C02a case of `traversed_vroot_partial` (one extra segment, `x`). -/
 example :
     let leaf : Tree := .mk false []
     let root : Tree := .mk true [("a".toList, .mk true [("b".toList, .mk true [("leaf".toList, leaf)])])]
     let v := "/a".toList
     let p := "/b/leaf/x/y".toList
-    splitPathInfo (v ++ p) = splitPathInfo v ++ splitPathInfo p ∧
+    Walkable root (splitPathInfo v) = true ∧
+      deepest root (splitPathInfo v ++ splitPathInfo p) ≠ (splitPathInfo v ++ splitPathInfo p).length ∧
+      splitPathInfo v ≠ [] ∧
       specText root (some v) p [] =
         { context := ["a".toList, "b".toList, "leaf".toList], viewName := "x".toList, subpath := ["y".toList],
           traversed := ["a".toList, "b".toList, "leaf".toList], virtualRoot := ["a".toList],
           virtualRootPath := ["a".toList] } ∧
+      (traverseText root (some v) p []).traversed = ["a".toList, "b".toList, "leaf".toList, "x".toList] ∧
       Walkable root ["a".toList, "b".toList, "leaf".toList] = true ∧
       Walkable root ["a".toList, "b".toList, "leaf".toList, "x".toList] = false := by decide
+
+/-- a virtual root that cannot be walked (`/zz` does not exist): `Walkable root (split v) = false` -/
+example :
+    let root : Tree := .mk true [("a".toList, .mk true [])]
+    Walkable root (splitPathInfo "/zz/".toList) = false ∧
+      (traverseText root (some "/zz/".toList) "/a".toList []).virtualRoot = [] ∧
+      (traverseText root (some "/zz/".toList) "/a".toList []).viewName = "zz".toList := by decide
 
 example : (∀ s ∈ ["a b".toList, "@@v".toList, "...".toList], Clean s ∧ '/' ∉ s) := by decide
 
